@@ -340,7 +340,7 @@ def pair_cases(rng, tier):
         a = rand_seq(rng, 3, 10 if tier == "quick" else 30)
         b = mutate(rng, a) if rng.random() < 0.5 else rand_seq(rng, 1, 10 if tier == "quick" else 30)
         cases.append(dict(kind="pair", a=a, b=b, S=rand_S(rng), d=rng.randint(1, 20), e=rng.randint(1, 5),
-                          local=False, hirsch=True, block="hirschberg"))
+                          local=False, hirsch=True, middle=True, block="hirschberg"))
     return cases
 
 
@@ -645,6 +645,13 @@ def model_pairs(cases, impl):
         if valid_rows(ir["rows"], c["a"], c["b"], c["local"]) is None:
             terms.append(coq_pair_case(3 if c["local"] else 2, tabs, ir["rows"][0], ir["rows"][1], letters))
             index.append((k, "score"))
+        if c.get("middle") and "middle" in ir:
+            # the divide step: the model's middle row (Model/Hirschberg.v) at k = len(a) // 2
+            terms.append(coq_pair_case(4, tabs, c["a"], c["b"], letters))
+            index.append((k, "middle"))
+            # ... and the model of the whole recursion
+            terms.append(coq_pair_case(5, tabs, c["a"], c["b"], letters))
+            index.append((k, "hirsch"))
     out = core.coq_eval(PROP, ["Lib.MaxPlus", "Model.PairAlign", "Model.PairAlignRun"], "run_case", terms, "pcase", shard=150, tag="p")
     res = {}
     for (k, what), v in zip(index, out):
@@ -687,6 +694,36 @@ def compare_pair_model(c, ir, mr, dis, stats):
         else:
             add("rows-differ-and-are-not-co-optimal")
         stats["model_align"] += 1
+    if "middle" in mr:
+        mm = mr["middle"]                      # flattened: j major, states BEGIN, X, Y, M
+        im = [v for row in ir["middle"]["rows"] for v in row]
+        if ir["middle"]["k"] != len(a) // 2 or len(mm) != len(im):
+            add("hirschberg-middle-row-shape", model_len=len(mm), impl_len=len(im))
+        else:
+            bad = [(q, x, y) for q, (x, y) in enumerate(zip(mm, im))
+                   if (x is None) != (y is None) or (x is not None and abs(real(x) - y) > slack * max(1.0, abs(y)))]
+            if bad:
+                add("hirschberg-middle-row-differs", first=bad[0])
+            fin = [x for x in mm if x is not None]
+            if fin and abs(real(max(fin)) - ir["score"]) > slack * max(1.0, abs(ir["score"])):
+                add("hirschberg-middle-max-differs-from-score", model_max=real(max(fin)))
+            stats["middle_rows"] = stats.get("middle_rows", 0) + 1
+            stats["middle_entries"] = stats.get("middle_entries", 0) + len(mm)
+    if "hirsch" in mr:
+        hv = mr["hirsch"]
+        hscore = NEG if hv[0] is None else hv[0]
+        if hscore != dp_global(a, b, Tq, emq):
+            add("hirschberg-model-score-differs-from-integer-oracle")
+        if abs(real(hscore) - ir["score"]) > slack * max(1.0, abs(ir["score"])):
+            add("hirschberg-model-score-differs-from-implementation", model_score=real(hscore))
+        hrows = [unrow(hv[2], letters), unrow(hv[3], letters)]
+        if hrows == ir["rows"]:
+            stats["hirsch_same_rows"] = stats.get("hirsch_same_rows", 0) + 1
+        elif "score" in mr and mr["score"][0] is not None and abs(mr["score"][0] - hscore) * unit <= slack:
+            stats["hirsch_cooptimal_rows"] = stats.get("hirsch_cooptimal_rows", 0) + 1
+        else:
+            add("hirschberg-rows-differ-and-are-not-co-optimal", model_rows=hrows)
+        stats["hirsch_model"] = stats.get("hirsch_model", 0) + 1
     if "score" in mr:
         r1, r2 = ir["rows"]
         mine = path_score(rows_to_path(r1, r2), r1.replace("-", ""), r2.replace("-", ""), Tq, emq, local=c["local"])
@@ -821,10 +858,12 @@ def run(tier: str, seed: int) -> int:
                                 progressive_not_completed=stats.get("prog_nc", 0)),
         exhaustive=False,
         exhaustive_block=f"all pairs of sequences over {{A,C}} of length 1..{3 if tier == 'quick' else 4} x scorings x global/local",
-        partial=["linear-space (Hirschberg) = full DP: compared on the same inputs with HIRSCHBERG_LIMIT forced to 0, not proved",
+        partial=["linear-space (Hirschberg): divide step and the whole recursion are proved = full DP on the MODEL (hirsch_align); that the "
+                 "implementation is that recursion is by correspondence (forced HIRSCHBERG_LIMIT: scores, rows, middle row vs the model); "
+                 "alignments of alignments (POG midlinks) are not modelled",
                  "progressive alignment (tree_align): outputs observed (equal lengths, degapped rows = inputs), not modelled",
-                 "star merge: equal row lengths not proved; 'keeps each pairwise alignment' is refuted for the pinned code and unproved "
-                 "for the code with proposed fix C18-1 (stmt_star_merge_keeps_pairwise_fixed): decided by the projection oracle",
+                 "star merge: for the pinned rule 'keeps each pairwise alignment' is proved only where no new reference gap falls strictly "
+                 "inside a gap of the other sequence (and refuted otherwise); proved in general for the repaired rule (C18-1)",
                  "float log-space arithmetic and the numba kernels: compared with tolerance, not proved"],
         mode_threshold_option_matrix=matrix, matrix_empty_cells=empty,
         matrix_note="threshold = HIRSCHBERG_LIMIT during the call; every case with a non-default threshold is also run at the default "
@@ -832,7 +871,14 @@ def run(tier: str, seed: int) -> int:
                     "is excluded on purpose (internal combination used for posteriors, scores a different model); pairwise_to_multiple "
                     "takes no threshold (no DP)",
         threshold_rows_identical_to_full_dp=stats.get("threshold_same_rows", 0),
-        outside_quantifier_observations=dict(use_scaling_local_suboptimal=stats.get("scaling_local_suboptimal", 0),
+        hirschberg_model_runs=stats.get("hirsch_model", 0), hirschberg_model_rows_identical=stats.get("hirsch_same_rows", 0),
+        hirschberg_model_rows_cooptimal=stats.get("hirsch_cooptimal_rows", 0),
+        hirschberg_middle_rows_compared=stats.get("middle_rows", 0), hirschberg_middle_entries_compared=stats.get("middle_entries", 0),
+        outside_quantifier_observations=dict(
+            why="C18's quantifier is 'all sequence pairs/sets x all scoring matrices and gap penalties x local/global x the "
+                "Hirschberg-threshold setting x reference choice'; use_scaling is none of these (reachable only through **kw of "
+                "classic_align_pairwise, not the Viterbi default), so its local-mode suboptimality is recorded, not judged",
+            use_scaling_local_suboptimal=stats.get("scaling_local_suboptimal", 0),
                                              sample=stats.get("scaling_local_sample")),
         model_impl_disagreements=len(dis), spec_violations=stats["viol"], star_model_variant_matching_source=star_variant,
     )
